@@ -137,6 +137,7 @@ type World struct {
 	btcOn, lbtcOn bool
 	policyPath    string
 	deferred      []func() // environment actions that follow the current step
+	hung          bool     // a scenario step did not return within the watchdog
 }
 
 type WorldCfg struct {
